@@ -29,6 +29,7 @@ type c20Case struct {
 	Canaries map[string]string `json:"canaries"` // variable -> value
 	Renders  []int             `json:"renders"`  // sequence of rendering modes: 0 yaml, 1 json, 2 yaml+content, 3 json+content
 	Derive   string            `json:"derive"`   // none | profiles | prune | disable | select | labels
+	Opts     loadOpts          `json:"opts"`     // loader options that do not concern secrets (the value must be available all the same)
 }
 
 var c20Specials = []string{": ", " #", "'", `"`, "\n", "{", "}", "[", "]", "&", "*", "!", "|", ">", "%", "@", "`", "\\", "\t", "- ", "? ", ",", "$$", "=", "é"}
@@ -83,6 +84,14 @@ func genC20(t *rapid.T) c20Case {
 		cs.Renders = append(cs.Renders, rapid.IntRange(0, 3).Draw(t, "render"))
 	}
 	cs.Derive = rapid.SampledFrom([]string{"none", "none", "profiles", "prune", "disable", "select", "labels"}).Draw(t, "derive")
+	switch rapid.IntRange(0, 7).Draw(t, "opts") {
+	case 0:
+		cs.Opts.SkipResolveEnvironment = true // concerns the `environment` of services, not where secrets take their value
+	case 1:
+		cs.Opts.SkipNormalization = true
+	case 2:
+		cs.Opts.SkipConsistencyCheck, cs.Opts.NoResolvePaths = true, true
+	}
 	return cs
 }
 
@@ -187,7 +196,12 @@ func c20Check(c *Ctx, cs c20Case) *Failure {
 	for k, v := range cs.Canaries {
 		env[k] = v
 	}
-	lc := loadCase{Files: []memFile{{Name: "compose.yaml", Content: doc}}, Main: []string{"compose.yaml"}, Env: env, Opts: loadOpts{Profiles: []string{"*"}}}
+	opts := cs.Opts
+	opts.Profiles = []string{"*"}
+	if cs.Opts.SkipResolveEnvironment || cs.Opts.SkipNormalization || cs.Opts.SkipConsistencyCheck || cs.Opts.NoResolvePaths {
+		c.Label("with-loader-options")
+	}
+	lc := loadCase{Files: []memFile{{Name: "compose.yaml", Content: doc}}, Main: []string{"compose.yaml"}, Env: env, Opts: opts}
 	r := lc.loadMem()
 	if r.Panic != nil {
 		return r.Panic
